@@ -159,7 +159,7 @@ Tick(i) ==
   /\ Body(i)
   /\ late' = (late \/ (fin /\ (pool' # pool \/ reqs' # reqs)))
   /\ fin' = (fin \/ \A j \in Members : pc'[j] = DonePc)
-  /\ UNCHANGED <<cvars, alive, run, cancels, reruns>>
+  /\ UNCHANGED <<cvars, alive, run, cancels, reruns, lvars>>
 
 \* ------------------------------------------------------------------ chain
 Effect(t) ==
@@ -183,7 +183,7 @@ Include(t) ==
   /\ t \in pool
   /\ Effect(t)
   /\ pool' = pool \ {t}
-  /\ UNCHANGED <<reqs, alive, pc, run, cancels, fin, reruns, late>>
+  /\ UNCHANGED <<reqs, alive, pc, run, cancels, fin, reruns, late, lvars>>
 
 \* the listener of member j signs a request it received while it was up
 NotarySign(j, r) ==
@@ -192,28 +192,28 @@ NotarySign(j, r) ==
      IF Cardinality(r2.sg) >= r.thr
      THEN reqs' = reqs \ {r} /\ pool' = pool \cup {[op |-> r.op, c |-> r.c, by |-> r.by, run |-> r.run]}
      ELSE reqs' = (reqs \ {r}) \cup {r2} /\ UNCHANGED pool
-  /\ UNCHANGED <<cvars, alive, pc, run, cancels, fin, reruns, late>>
+  /\ UNCHANGED <<cvars, alive, pc, run, cancels, fin, reruns, late, lvars>>
 
 \* a request that can no longer be completed by its audience expires (fallback), or - before the Notary role is
 \* designated - is never processed at all
 Expire(r) ==
   /\ r \in reqs /\ (Cardinality(r.sg \cup r.aud) < r.thr \/ ~ntr)
   /\ reqs' = reqs \ {r}
-  /\ UNCHANGED <<cvars, pool, alive, pc, run, cancels, fin, reruns, late>>
+  /\ UNCHANGED <<cvars, pool, alive, pc, run, cancels, fin, reruns, late, lvars>>
 
 Cancel(i) ==
   /\ alive[i] /\ pc[i] < DonePc /\ cancels < MaxCancel
   /\ alive' = [alive EXCEPT ![i] = FALSE]
   /\ cancels' = cancels + 1
   /\ reqs' = {[r EXCEPT !.aud = @ \ {i}] : r \in reqs}
-  /\ UNCHANGED <<cvars, pool, pc, run, fin, reruns, late>>
+  /\ UNCHANGED <<cvars, pool, pc, run, fin, reruns, late, lvars>>
 
 Restart(i) ==
   /\ ~alive[i] /\ (i \notin Absent \/ run[i] > 0 \/ ntr)
   /\ alive' = [alive EXCEPT ![i] = TRUE]
   /\ pc' = [pc EXCEPT ![i] = 1]
   /\ run' = [run EXCEPT ![i] = @ + 1]
-  /\ UNCHANGED <<cvars, pool, reqs, cancels, fin, reruns, late>>
+  /\ UNCHANGED <<cvars, pool, reqs, cancels, fin, reruns, late, lvars>>
 
 \* a complete second run of a member on the finished chain
 Rerun(i) ==
@@ -221,12 +221,28 @@ Rerun(i) ==
   /\ pc' = [pc EXCEPT ![i] = 1]
   /\ run' = [run EXCEPT ![i] = @ + 1]
   /\ reruns' = reruns + 1
-  /\ UNCHANGED <<cvars, pool, reqs, alive, cancels, fin, late>>
+  /\ UNCHANGED <<cvars, pool, reqs, alive, cancels, fin, late, lvars>>
+
+\* ------------------------------------------------------------------ lossy delivery (unfair, at most MaxLoss times)
+Stick(x) == IF "StickyPending" \in Dev THEN stuck \cup {[op |-> x.op, c |-> x.c, by |-> x.by, run |-> x.run]} ELSE stuck
+Lose(t) ==
+  /\ t \in pool /\ losses < MaxLoss
+  /\ pool' = pool \ {t} /\ losses' = losses + 1 /\ stuck' = Stick(t)
+  /\ UNCHANGED <<cvars, reqs, alive, pc, run, cancels, fin, reruns, late>>
+LoseReq(r) ==
+  /\ r \in reqs /\ losses < MaxLoss
+  /\ reqs' = reqs \ {r} /\ losses' = losses + 1 /\ stuck' = Stick(r)
+  /\ UNCHANGED <<cvars, pool, alive, pc, run, cancels, fin, reruns, late>>
+\* the co-signature of member j is lost: its listener has processed the request and will not sign it again
+LoseSign(j, r) ==
+  /\ r \in reqs /\ losses < MaxLoss /\ alive[j] /\ j \in r.aud \ r.sg
+  /\ reqs' = (reqs \ {r}) \cup {[r EXCEPT !.aud = @ \ {j}]} /\ losses' = losses + 1
+  /\ UNCHANGED <<cvars, pool, alive, pc, run, cancels, fin, reruns, late, stuck>>
 
 Next ==
   \/ \E i \in Members : Tick(i) \/ Cancel(i) \/ Restart(i) \/ Rerun(i)
-  \/ \E t \in pool : Include(t)
-  \/ \E r \in reqs : Expire(r) \/ \E j \in Members : NotarySign(j, r)
+  \/ \E t \in pool : Include(t) \/ Lose(t)
+  \/ \E r \in reqs : Expire(r) \/ LoseReq(r) \/ \E j \in Members : NotarySign(j, r) \/ LoseSign(j, r)
 
 Fairness ==
   /\ \A i \in Members : WF_vars(Tick(i)) /\ WF_vars(Restart(i))
